@@ -80,6 +80,15 @@ where
         Self::new(operation, log_id, topic, prune_flag)
     }
 
+    /// Makes sure the "log prune" processor ignores this event.
+    ///
+    /// The prune arguments are derived from the header _before_ the operation was validated. An
+    /// event which failed validation (for example a forged signature claiming another author)
+    /// must never cause any deletion.
+    pub(crate) fn skip_log_prune(&mut self) {
+        self.log_prune_args = LogPruneArgs::Ignore;
+    }
+
     /// System-level data (append-only log, pruning coordination, etc.) of this operation.
     pub fn header(&self) -> &Header<E> {
         &self.operation.header
